@@ -53,6 +53,13 @@ Proof.
   eexists. split; [vm_compute; reflexivity|]. split; vm_compute; reflexivity.
 Qed.
 
+(* the functions of the modelled source are exactly the functions the model was written against
+   (gen/GenApi.v is regenerated from /repo on every run; see Model/ApiSurface.v) *)
+From V Require gen.GenApi Model.ApiSurface.
+Theorem C14_api_lib_hash : GenApi.api_lib_hash = ApiSurface.expected_lib_hash.
+Proof. reflexivity. Qed.
+
+Print Assumptions C14_api_lib_hash.
 Print Assumptions C14_to_hex_lowercase_64.
 Print Assumptions C14_from_hex_to_hex.
 Print Assumptions C14_from_hex_total.
